@@ -1,0 +1,10 @@
+// SPDX-FileCopyrightText: 2026 The Pion community <https://pion.ly>
+// SPDX-License-Identifier: MIT
+
+//go:build !verif
+
+package ice
+
+// verifParkTicker lets an external verification harness take over the
+// connectivity-check ticker. Without the verif build tag it never does.
+func verifParkTicker(*Agent, func()) bool { return false }
